@@ -1,5 +1,6 @@
 import EpgVerif.Props.C15
 import EpgVerif.Tie.PhysSites
+import EpgVerif.Props.C15Box3
 open EpgVerif.Props.C15
 #print axioms box_factor
 #print axioms box_is_average
@@ -12,3 +13,4 @@ open EpgVerif.Props.C15
 #print axioms EpgVerif.Props.C04.finsum_eq_list_sum
 #print axioms EpgVerif.Props.C04.nodup_run
 #print axioms EpgVerif.Tie.PhysSites.sites_as_modelled
+#print axioms box3_is_average
